@@ -52,8 +52,18 @@ type c21Hist struct {
 // mkID builds an id that hashes to block b (of hm) and ideal slot s, distinguished by k.
 func mkID(hm, b, s int, k uint64) sop.UUID {
 	var u sop.UUID
-	hi := uint64(b) + uint64(hm)*(k%1000003)
-	lo := uint64(s) + uint64(fs.VerifHandlesPerBlock)*(k+1)
+	// spread the id over all 16 bytes (a write that spills into a neighbouring slot must hit non-zero bytes):
+	// hi = b (mod hm) and lo = s (mod handlesPerBlock) with high-entropy quotients derived from k
+	mix := func(x uint64) uint64 {
+		x += 0x9E3779B97F4A7C15
+		x = (x ^ (x >> 30)) * 0xBF58476D1CE4E5B9
+		x = (x ^ (x >> 27)) * 0x94D049BB133111EB
+		return x ^ (x >> 31)
+	}
+	qh := mix(k) % ((uint64(1) << 62) / uint64(hm))
+	ql := mix(k+0x5151) % ((uint64(1) << 62) / uint64(fs.VerifHandlesPerBlock))
+	hi := uint64(b) + uint64(hm)*qh
+	lo := uint64(s) + uint64(fs.VerifHandlesPerBlock)*ql
 	binary.BigEndian.PutUint64(u[:8], hi)
 	binary.BigEndian.PutUint64(u[8:], lo)
 	return u
